@@ -5,7 +5,7 @@ import RsslVerif.Model.HlslAst
 # `Model.IrVec` — vector expression layer over the scalar model
 
 `VExpr` mirrors the part of `ir::Expression` that changes *shape*: `Cast` to / from vector types, `Swizzle`,
-numeric `Constructor` (with its `ConstructorSlot { arity, expr }`), component-wise `IntrinsicOp`s and
+numeric `Constructor` (with its `ConstructorSlot { arity, expr }`), component-wise `IntrinsicOp`s, `&&` / `||` and
 `TernaryConditional` on vectors, references to vector-typed locals / globals.  A maximal sub-expression that
 involves no vector at all is a leaf `sc e` holding an expression of the scalar model (`Model.Ir`), so that the
 scalar theorems are re-used for it.  `VAExpr` is the corresponding fragment of `rssl_ast::Expression`
